@@ -14,7 +14,7 @@ import scalar_check as S
 
 
 class Item:
-    def __init__(self, iid, decls, text=None, opts=None, note=None, entities=None, c20=False):
+    def __init__(self, iid, decls, text=None, opts=None, note=None, entities=None, c20=False, mems=None):
         self.id = str(iid)
         self.decls = decls
         self.text = text if text is not None else fa.program_text(decls)
@@ -22,6 +22,7 @@ class Item:
         self.note = note
         self.entities = entities
         self.c20 = c20
+        self.mems = mems
         self.status = None  # 'pass' | 'known:<id>' | 'violation' | 'skipped:<why>'
         self.detail = {}
         self.bpj = None
@@ -65,8 +66,10 @@ def _classify_wiring(item):
 
 def check_items(prop, items, seed=0, do_search=True, per=6):
     """fills item.status / item.detail; returns coq command description and number of kernel-checked passes"""
-    jobs = [(it.text, it.opts) for it in items]
-    res = H.compile_many(jobs)
+    todo = [it for it in items if getattr(it, "preset_bpj", None) is None]
+    res_c = iter(H.compile_many([(it.text, it.opts) for it in todo]))
+    res = [("ok", json.dumps(it.preset_bpj), None) if getattr(it, "preset_bpj", None) is not None else next(res_c)
+           for it in items]
     cases = []
     defs_by = {}
     for it, r in zip(items, res):
@@ -77,12 +80,18 @@ def check_items(prop, items, seed=0, do_search=True, per=6):
         it.bpj = json.loads(r[1])
         it.harvest = r[2] if len(r) > 2 else None
         try:
-            defs, expr, meta = S.case_for(it.id, it.decls, it.bpj, entities=it.entities, c20=it.c20)
+            defs, expr, meta = S.case_for(it.id, it.decls, it.bpj, entities=it.entities, c20=it.c20, mems=it.mems)
         except bpexport.Unsupported as e:
             it.status = "violation"
             it.detail = {"kind": "unsupported-blueprint", "message": str(e)}
             continue
         it.meta = meta
+        if meta.get("entity_problems") or meta.get("mem_problems"):
+            it.status = "violation"
+            it.detail = {"kind": "placed entity / memory gate not found exactly once",
+                         "entities": meta.get("entity_problems"), "memories": meta.get("mem_problems"),
+                         "failing_input": "none needed (structural)"}
+            continue
         if not meta["outputs"]:
             it.status = "skipped:no-outputs"
             continue
@@ -110,7 +119,7 @@ def check_items(prop, items, seed=0, do_search=True, per=6):
             it.ideal = None
             continue
         try:
-            defs, expr, meta = S.case_for(it.id, it.decls, it.bpj, ideal=it.harvest, entities=it.entities, c20=it.c20)
+            defs, expr, meta = S.case_for(it.id, it.decls, it.bpj, ideal=it.harvest, entities=it.entities, c20=it.c20, mems=it.mems)
             icases.append((it.id, defs, expr))
         except bpexport.Unsupported:
             it.ideal = None
